@@ -11,8 +11,8 @@ From Verif Require Import model.Base.
 From Coq Require Import Ascii String.
 Local Open Scope Z_scope.
 
-Definition ch := Z.
-Definition text := list ch.
+Notation ch := Z (only parsing).
+Notation text := (list Z) (only parsing).
 
 Definition codes (s : string) : text :=
   map (fun a => Z.of_N (N_of_ascii a)) (list_ascii_of_string s).
@@ -192,41 +192,35 @@ Record request := {
 Inductive outcome :=
 | Emitted (k : nat)      (* line printed, st_worker_iter = k *)
 | AssertionErr           (* None value, st_ key, or too large *)
-| TypeErr                (* not serialisable *)
-| AttributeErr.          (* self.iter missing: Reporter(add_time=False) *)
+| TypeErr.               (* not serialisable *)
 
 Definition outcome_eqb (a b : outcome) : bool :=
   match a, b with
   | Emitted j, Emitted k => Nat.eqb j k
   | AssertionErr, AssertionErr => true
   | TypeErr, TypeErr => true
-  | AttributeErr, AttributeErr => true
   | _, _ => false
   end.
 
-(* Reporter state: [self.iter]; it only exists when add_time=True
-   (__post_init__ sets start/iter under [if self.add_time]) *)
-Definition rstate := option nat.
-Definition reporter_init (add_time : bool) : rstate := if add_time then Some O else None.
+(* Reporter state: [self.iter], set to 0 by __post_init__ whatever add_time /
+   add_cost are (they only decide which time/cost keys the oracle serialises) *)
+Definition rstate := nat.
+Definition reporter_init : rstate := O.
 
 Definition SIZE_LIMIT : Z := 50000.
 
 (* Reporter.__call__ ; [m_unser], [m_large] = the two lines _serialize_report_dict
    prints (with their newline) before re-raising.  Same order of effects:
    None check, st_ check, read self.iter, self.iter += 1, serialise, size check, print. *)
-Definition report_call (m_unser m_large : text) (st : rstate) (r : request)
+Definition report_call (m_unser m_large : text) (k : rstate) (r : request)
   : rstate * outcome * list chunk :=
-  if existsb (fun b => b) (rq_none r) then (st, AssertionErr, [])
-  else if existsb (starts_with ST_PREFIX) (rq_keys r) then (st, AssertionErr, [])
-  else match st with
-       | None => (st, AttributeErr, [])
-       | Some k =>
-           match rq_dump r k with
-           | None => (Some (S k), TypeErr, [Noise m_unser])
-           | Some (p, sz) =>
-               if Z.ltb sz SIZE_LIMIT then (Some (S k), Emitted k, [Report p])
-               else (Some (S k), AssertionErr, [Noise m_large])
-           end
+  if existsb (fun b => b) (rq_none r) then (k, AssertionErr, [])
+  else if existsb (starts_with ST_PREFIX) (rq_keys r) then (k, AssertionErr, [])
+  else match rq_dump r k with
+       | None => (S k, TypeErr, [Noise m_unser])
+       | Some (p, sz) =>
+           if Z.ltb sz SIZE_LIMIT then (S k, Emitted k, [Report p])
+           else (S k, AssertionErr, [Noise m_large])
        end.
 
 (* the training script: prints other output and calls the reporter *)
